@@ -115,6 +115,8 @@ def run_dom(cfg):
     vel = [[1.0, 0.0, 0.0], [0.0, 1.0, 0.0], [0.0, 0.0, 1.0]]
     charges = [(1.0, 1.0), (1.0, -1.0), (-1.0, 1.0), (-1.0, -1.0)]
     top = []       # (score, record)
+    big = []       # (true rate, record) of violating evaluations
+    clean = []     # (score, record) with |component along the motion| >= 1e-9 L (outside the rounding-noise region)
     floor = cfg.get("floor", 0.0) / (L * L)
     residues = 0
     max_residue = 0.0
@@ -143,6 +145,15 @@ def run_dom(cfg):
                 hist[min(21, int(score / 0.05)) if score != math.inf else 21] += 1
                 if score > 1.0 + 1e-12:
                     nviol += 1
+                    # keep the violations with the largest true rate as well (the ratio peaks where rates vanish)
+                    if len(big) < K or t > big[-1][0]:
+                        big.append((t, [[f2b(x) for x in p], d, [c1, c2], f2b(t), f2b(b)]))
+                        big.sort(key=lambda x: -x[0])
+                        del big[K:]
+                if abs(p[d]) >= 1e-9 * L and score != math.inf and (len(clean) < 3 or score > clean[-1][0]):
+                    clean.append((score, [[f2b(x) for x in p], d, [c1, c2], f2b(t), f2b(b)]))
+                    clean.sort(key=lambda x: -x[0])
+                    del clean[3:]
                 if len(top) < K or score > top[-1][0]:
                     top.append((score, [[f2b(x) for x in p], d, [c1, c2], f2b(t), f2b(b)]))
                     top.sort(key=lambda x: -x[0])
@@ -150,7 +161,8 @@ def run_dom(cfg):
     setting.reset()
     return {"neval": neval, "npos": npos, "nviol": nviol, "hist": hist, "residues": residues,
             "max_residue": f2b(max_residue),
-            "top": [[("inf" if s == math.inf else f2b(s)), r] for s, r in top],
+            "top": [[("inf" if s == math.inf else f2b(s)), r] for s, r in top] + [["big", r] for _, r in big]
+            + [["clean", r] for _, r in clean],
             "kb": f2b(cfg["kb"] if cfg.get("kb") is not None else default_prefactor())}
 
 
